@@ -25,14 +25,17 @@ pub const ALPHABET: [&str; 15] = [
 ];
 
 const TABLES: [&str; 4] = ["none", "ascii-pairs", "utf8-lead-continuation", "end-of-word-suffix"];
-const PRETOKS: [&str; 6] = [
+const PRETOKS: [&str; 7] = [
     "none",
     "gpt2",
     "split-isolate(\\s+|[<>])",
     "split-isolate-inverted(\\p{L}+)",
     "bert",
     "sequence[gpt2,split-isolate(\\s+|[<>])]",
+    // lossy: the delimiters are dropped. Only the offset laws are judged for it.
+    "split-remove(\\s+)",
 ];
+const LOSSY_PRETOK: usize = 6;
 const ADDED_TOKEN: &str = "<|>";
 const ADDED_ID: u32 = 70000;
 const SUFFIX: &str = "</w>";
@@ -134,6 +137,9 @@ fn make_pretok(p: usize) -> Option<Box<dyn PreTokenizer>> {
             Box::new(Split::gpt2()),
             Box::new(isolate()),
         ]))),
+        6 => Some(Box::new(
+            Split::new(SplitOptions { pattern: r"\s+", delimiter: SplitDelimiterBehavior::Remove, invert: false }).expect("valid pattern"),
+        )),
         _ => unreachable!(),
     }
 }
@@ -258,7 +264,7 @@ fn check(tok: &Tokenizer, pt: Option<&dyn PreTokenizer>, cfg: Cfg, rev: &HashMap
             format!("text_for_token_range(i..i+1) is None for a valid token index {tag}"),
             format!("token {i} of {} with offsets {offs:?}", ids.len()),
         ));
-    } else if cat != s {
+    } else if cat != s && cfg.pretok != LOSSY_PRETOK {
         out.sigs.push((
             format!("token text slices do not concatenate to the input {tag}"),
             format!("slices {slices:?} concatenate to {cat:?}, input {s:?}, offsets {offs:?}"),
@@ -274,6 +280,18 @@ fn check(tok: &Tokenizer, pt: Option<&dyn PreTokenizer>, cfg: Cfg, rev: &HashMap
         }
     }
 
+    if cfg.pretok == LOSSY_PRETOK {
+        // dropped delimiters: no round trip; every token's offset must be the start of a piece
+        // that the public pre-tokenizer yields for this input
+        let distinct: Vec<usize> = offs[..ids.len().min(offs.len())].to_vec();
+        if let Some(o) = distinct.iter().find(|o| !starts.contains(o)) {
+            out.sigs.push((
+                format!("token offset is not the start of a piece of the input {tag}"),
+                format!("offsets {offs:?}, piece starts {starts:?}, input {s:?}: {o}"),
+            ));
+        }
+        return out;
+    }
     // --- round trip ------------------------------------------------------
     match vp_core::catch(|| tok.decode(ids)) {
         Err(p) => {
@@ -370,9 +388,9 @@ pub fn run(ctx: Ctx) -> ! {
         replay(ctx, &p);
     }
     let max_cp = ctx.tier.pick(4, 5);
-    let npretok = ctx.tier.pick(3, PRETOKS.len());
+    let pretoks: Vec<usize> = if ctx.tier.is_thorough() { (0..PRETOKS.len()).collect() } else { vec![0, 1, 2, LOSSY_PRETOK] };
     let mut cfgs = Vec::new();
-    for pretok in 0..npretok {
+    for pretok in pretoks {
         for table in 0..TABLES.len() {
             for explicit in [false, true] {
                 for added in [false, true] {
@@ -486,7 +504,7 @@ pub fn run(ctx: Ctx) -> ! {
             "strings": nstrings,
             "vocab": ["implicit", "explicit"],
             "merge_tables": TABLES,
-            "pre_tokenizers": &PRETOKS[..npretok],
+            "pre_tokenizers": if ctx.tier.is_thorough() { PRETOKS.to_vec() } else { vec![PRETOKS[0], PRETOKS[1], PRETOKS[2], PRETOKS[LOSSY_PRETOK]] },
             "added_token": [false, true],
             "tokenizer_configurations": cfgs.len(),
         },
